@@ -509,7 +509,7 @@ CHECKS.update({
             "rule": "every byte value after every whitespace prefix of length <= 3 over the four whitespace bytes (85 x 257, exhaustive); "
                     "every one-byte corruption (256 values at each position), truncation and following byte of true/false/null with 4 "
                     "whitespace prefixes and padding of several lengths; whitespace runs 0..17 x every byte value x padded tails; "
-                    "first-token zoo; random documents; 13 typed readers observed on every input",
+                    "first-token zoo; random documents; 13 typed readers observed on every input; TokenType.String for the reported type and for the first byte taken as a raw TokenType value (a note clause)",
             "technique": "TLA+ token table and literal acceptors + exhaustive byte x whitespace-prefix sweep validated by TLC (R3)",
             "level_text": "The token table, whitespace set and literal acceptors are TLA+ definitions; the enumerated input sets are "
                           "complete for the stated shapes and every recorded result is recomputed by TLC; type exclusivity is asserted "
